@@ -225,7 +225,7 @@ struct GhostWriter : BaseCborOutputWriter {
 };
 static uint64_t z_consumed, z_produced, z_pending; static bool z_inited, z_finished, z_init_failed; static unsigned z_calls, z_ends, z_inits; static bool z_misuse;
 extern "C" int ext_deflateInit2_(z_stream* s, int, int, int, int, int, const char*, int) {
-    z_inits++; z_inited = true; z_finished = false; z_consumed = z_produced = 0; z_pending = 1 + vs_range(2);   // header + trailer bytes still to come (small symbolic amount)
+    z_inits++; z_inited = true; z_finished = false; z_consumed = z_produced = 0; z_pending = 1 + vs_range(7000);   // compressed bytes still to come at FINISH: up to more than two scratch buffers
     s->state = reinterpret_cast<internal_state*>(s);    // non-null while initialised
     if (nondet_bool()) { z_init_failed = true; return Z_MEM_ERROR; }
     return Z_OK;
@@ -235,18 +235,19 @@ extern "C" int ext_deflate(z_stream* s, int flush) {
     if (!z_inited || z_finished || s->next_out == nullptr) { z_misuse = true; return Z_STREAM_ERROR; }
     // consumes 0..avail_in, produces 0..avail_out; progress when both are non-zero; STREAM_END only for FINISH with everything out
     uint64_t take = nondet_u64(); if (take > s->avail_in) take = s->avail_in;
-    uint64_t put = nondet_u64(); if (put > s->avail_out) put = s->avail_out;
-    if (flush == Z_FINISH) take = s->avail_in;                 // (zlib consumes all input on FINISH if output space allows; simplified: all)
+    if (flush == Z_FINISH) take = s->avail_in;                 // FINISH: all input is taken
     z_pending += take;                                         // compressed form of the input joins the pending output
-    if (put > z_pending) put = z_pending;
-    if (s->avail_in > 0 && s->avail_out > 0 && take == 0 && put == 0) { if (s->avail_in > 0) take = 1; z_pending += 1; }
+    uint64_t put;
+    if (flush == Z_FINISH) put = z_pending < s->avail_out ? z_pending : s->avail_out;      // FINISH fills the output buffer as far as it can
+    else { put = nondet_u64(); if (put > s->avail_out) put = s->avail_out; if (put > z_pending) put = z_pending; }
+    if (flush != Z_FINISH && s->avail_in > 0 && s->avail_out > 0 && take == 0) { take = 1; z_pending += 1; }   // input is consumed while there is room
     s->avail_in -= (unsigned)take; s->next_in += take; z_consumed += take;
     s->avail_out -= (unsigned)put; s->next_out += put; z_produced += put; z_pending -= put;
-    if (flush == Z_FINISH && s->avail_in == 0 && z_pending == 0) { z_finished = true; return Z_STREAM_END; }
-    if (flush == Z_FINISH && put == 0 && s->avail_out > 0) { uint64_t p = z_pending < s->avail_out ? z_pending : s->avail_out; s->avail_out -= (unsigned)p; z_produced += p; z_pending -= p; if (z_pending == 0) { z_finished = true; return Z_STREAM_END; } }
+    if (flush == Z_FINISH && z_pending == 0) { z_finished = true; return Z_STREAM_END; }
     return Z_OK;
 }
-extern "C" int ext_deflateEnd(z_stream* s) { z_ends++; z_produced_at_end = z_produced; if (!z_inited) z_misuse = true; z_inited = false; s->state = nullptr; return Z_OK; }
+static bool z_end_unfinished;
+extern "C" int ext_deflateEnd(z_stream* s) { z_ends++; z_produced_at_end = z_produced; if (!z_finished) z_end_unfinished = true; if (!z_inited) z_misuse = true; z_inited = false; s->state = nullptr; return Z_OK; }
 
 extern "C" lzma_ret ext_lzma_easy_encoder(lzma_stream*, uint32_t, lzma_check) { return LZMA_MEM_ERROR; }
 extern "C" lzma_ret ext_lzma_code(lzma_stream*, lzma_action) { return LZMA_PROG_ERROR; }
@@ -255,7 +256,7 @@ extern "C" void ext_lzma_end(lzma_stream*) {}
 union GzBox { GzipCborOutputWriter w; GzBox() {} ~GzBox() {} };
 static void gz_setup(GzBox& b, GhostWriter& g) {
     g.bytes = 0; g.writes = 0; g.rotates = 0; g.fail_next = false;
-    z_misuse = false; z_calls = z_ends = z_inits = 0; z_inited = false; z_init_failed = false;
+    z_misuse = false; z_calls = z_ends = z_inits = 0; z_inited = false; z_init_failed = false; z_end_unfinished = false;
     new (&b.w) GzipCborOutputWriter((int)0);       // Writer<int> inner (fstat stub); replaced by the ghost writer below
 }
 extern "C" void h_gz_write(void) {
@@ -289,6 +290,7 @@ static void gz_close(bool with_fault) {
             __verif_assert(!threw || z_init_failed, "rotation without faults succeeds (unless the compressor cannot be re-initialised)");
             __verif_assert(z_ends == 1 && z_inits == 2, "rotate_output = finish + end the stream, rotate the inner writer, re-initialise (C14)");
             __verif_assert(g.rotates == 1, "inner writer rotated exactly once");
+            __verif_assert(!z_end_unfinished, "the stream is ended only after the compressor reported STREAM_END: the whole trailer was produced, whatever its size (C14)");
             __verif_assert(g.bytes == g_bytes_at_rotate && g.bytes == z_produced_at_end, "the trailer produced by FINISH was forwarded before the inner writer rotated (C14)");
         } else {
             __verif_assert(threw, "a failure of the inner writer while the compressor is drained is reported by rotate_output (C16)");
